@@ -181,7 +181,11 @@ def register_tfr2(R):
                         "implies(self._test_start is not None, self._global_tags == old(self._global_tags) and "
                         " setof(self._test_tags[0]) == (old(setof(self._test_tags[0])) | old(setof(new_tags))) - old(setof(gone_tags)) and "
                         " setof(self._test_tags[1]) == (old(setof(self._test_tags[1])) | old(setof(gone_tags))) - old(setof(new_tags)))",
-                        "implies(self._test_start is None, self._test_tags == old(self._test_tags) and "
+                        # inside a test whose outcome has already been forwarded: the change ends with the test, nothing is buffered
+                        "implies(self._test_start is None and self._tags.parent is not None,"
+                        " self._test_tags == old(self._test_tags) and self._global_tags == old(self._global_tags))",
+                        # at run level: buffered for every later test
+                        "implies(self._test_start is None and self._tags.parent is None, self._test_tags == old(self._test_tags) and "
                         " setof(self._global_tags[0]) == (old(setof(self._global_tags[0])) | old(setof(new_tags))) - old(setof(gone_tags)) and "
                         " setof(self._global_tags[1]) == (old(setof(self._global_tags[1])) | old(setof(gone_tags))) - old(setof(new_tags)))"])
 
